@@ -37,16 +37,19 @@ def parse_scn(text):
 def check(impl, scn):
     queues, hops, routes, echo = parse_scn(scn)
     f9, f10 = [], []
-    stats = dict(arrivals=0, departures=0, drops=0, at_capacity=0, reentrant=0, coincide=0)
+    stats = dict(arrivals=0, departures=0, drops=0, at_capacity=0, reentrant=0, coincide=0,
+                 rounded_departures=0, intact_compared=0, intact_from_compared=0)
     if not routes: return f9, f10, stats
     route = routes[0]
     # observation points: for every queue in the route: the probe just before / after
     before, after = {}, {}      # probe name -> queue it feeds / queue it follows
+    rewritten = set()           # queues with a NAT between the observing probe and the queue: `from` legitimately differs
     for i, h in enumerate(route):
         if hops.get(h) == "queue":
             j = i - 1
             while j >= 0 and hops.get(route[j]) in ("nat", "dropper"): j -= 1
             if j >= 0 and hops.get(route[j]) == "probe": before[route[j]] = h
+            if any(hops.get(x) == "nat" for x in route[max(j, 0):i]): rewritten.add(h)
             if i + 1 < len(route) and hops.get(route[i + 1]) == "probe": after[route[i + 1]] = h
     last_probe = None
     for h in route:
@@ -61,14 +64,29 @@ def check(impl, scn):
     prev_line_was_D = False
     ended_quiescent = False
 
-    def arrive(q, t, seq, size, ty, ln, ovh, hascb):
+    def altered(q, rec, d, forwarded):
+        """fields of the packet as it left the queue (d: forwarded, or handed to its drop callback) that
+        differ from the packet that arrived: payload digest, byte counter, error code, sender endpoint
+        (unless a NAT sits between the observing probe and the queue), presence of the drop callback (a
+        forwarded packet still carries it; the callback itself receives the packet without it)"""
+        if rec.get("obs") is None: return []
+        o = rec["obs"]; bad = []
+        stats["intact_compared"] += 1
+        keys = ["pl", "bc", "ec"] + (["drop"] if forwarded else [])
+        if q not in rewritten:
+            keys.append("from"); stats["intact_from_compared"] += 1
+        for k in keys:
+            if k in o and k in d and o[k] != d[k]: bad.append("%s %s -> %s" % (k, o[k], d[k]))
+        return bad
+
+    def arrive(q, t, seq, size, ty, ln, ovh, hascb, obs=None):
         nonlocal last_arr
         c = queues[q]; s = st[q]
         droppable = ty in DROPPABLE
         exp_drop = droppable and c["cap"] > 0 and s["held"] + size > c["cap"]
         if c["cap"] > 0 and droppable and s["held"] + size == c["cap"]: stats["at_capacity"] += 1
         rec = dict(t=t, seq=seq, size=size, ty=ty, len=ln, ovh=ovh, cb=hascb, exp_drop=exp_drop, obs_drop=False,
-                   held=s["held"])
+                   held=s["held"], obs=obs)
         stats["arrivals"] += 1
         if hascb:
             # decided when the next line is (or is not) its drop callback
@@ -114,6 +132,9 @@ def check(impl, scn):
                 f10.append(("drop_reported_once_at_once", "drop of seq=%d reported at t=%d, arrived at %d" % (seq, t, rec["t"])))
             if int(d["len"]) != rec["len"] or d["type"] != rec["ty"] or int(d["ovh"]) != rec["ovh"]:
                 f10.append(("drop_intact", "dropped packet seq=%d handed back altered" % seq))
+            else:
+                bad = altered(q, rec, d, False)
+                if bad: f10.append(("drop_intact", "dropped packet seq=%d handed back altered: %s" % (seq, ", ".join(bad))))
             if not rec["exp_drop"]:
                 why = "undroppable type" if rec["ty"] not in DROPPABLE else ("capacity 0 = unlimited" if queues[q]["cap"] == 0 else "it fits: holds %d + %d <= capacity %d" % (rec["held"], rec["size"], queues[q]["cap"]))
                 f10.append(("drop_iff", "queue %s dropped packet seq=%d (%s) at t=%d although %s" % (q, seq, rec["ty"], t, why)))
@@ -155,15 +176,19 @@ def check(impl, scn):
                         rec = s["fifo"].pop(idx); s["held"] -= rec["size"]
                         if (ln_, ovh, ty) != (rec["len"], rec["ovh"], rec["ty"]):
                             f10.append(("conservation", "queue %s altered packet seq=%d in transit" % (q, seq)))
+                        else:
+                            bad = altered(q, rec, d, True)
+                            if bad: f10.append(("conservation", "queue %s altered packet seq=%d in transit: %s" % (q, seq, ", ".join(bad))))
                         ready = rec["t"] + c["lat"]
                         start = ready if s["prev"] is None else max(ready, s["prev"])
                         ser = Fraction(rec["size"] * 10**9, c["bw"]) if c["bw"] else Fraction(0)
+                        if ser.denominator != 1: stats["rounded_departures"] += 1
                         if abs(Fraction(t) - (start + ser)) > 1:
                             f9.append(("recurrence", "queue %s (bw=%d lat=%d): seq=%d (%d bytes) arrived %d, previous departure %s, left at %d; max(prev, arrive+latency)+size/rate = %s" % (q, c["bw"], c["lat"], seq, rec["size"], rec["t"], s["prev"], t, float(start + ser))))
                         if s["prev"] is not None and rec["t"] == s["prev"]: stats["coincide"] += 1
                         s["prev"] = t
             if name in before:
-                arrive(before[name], t, seq, size, ty, ln_, ovh, d.get("drop") == "1")
+                arrive(before[name], t, seq, size, ty, ln_, ovh, d.get("drop") == "1", obs=d)
             if echo and name == last_probe and seq < 100000:
                 # the echo sink behind this probe answers at once through its own route
                 settle()
